@@ -2,6 +2,7 @@
 """False-alarm sweep: hand-written PROPERTY-PRESERVING variants (textual replacements) applied to scratch copies of
 /repo HEAD; every one of the 20 quick checks must stay silent.   usage: benign_sweep.py [name-filter]"""
 import os, shutil, subprocess, sys, tempfile
+ROOT = os.path.dirname(os.path.dirname(os.path.abspath(__file__)))
 ENV = dict(os.environ, GOFLAGS="-mod=mod", GOPROXY="off", GOSUMDB="off", GOTOOLCHAIN="local")
 B = "builtInFunctions/"
 ALL = ["C%02d" % i for i in range(1, 21)]
@@ -59,7 +60,7 @@ def main():
                 print("%-60s repo-suite-fails %s" % (name, bad), flush=True); continue
             alarms = []
             for p in ALL:
-                rc, out = run(["/verif/check", p], "/verif", env=dict(ENV, VERIF_REPO=d))
+                rc, out = run([ROOT + "/check", p], ROOT, env=dict(ENV, VERIF_REPO=d))
                 if rc != 0:
                     sig = [l.strip() for l in out.splitlines() if l.strip().startswith("signature:")]
                     alarms.append("%s(rc=%d %s)" % (p, rc, sig[0][11:90] if sig else out.strip().splitlines()[-1][:90]))
